@@ -33,7 +33,7 @@ PROPS = {
     "C08": dict(quick_checks=2500, thorough_checks=20000),
     "C09": dict(quick_checks=4000, thorough_checks=30000),
     "C10": dict(quick_checks=4000, enum=True),
-    "C11": dict(quick_checks=2500, thorough_checks=15000),
+    "C11": dict(quick_checks=4000, thorough_checks=15000),
     "C12": dict(quick_checks=2500, thorough_checks=15000),
     "C13": dict(quick_checks=3000, thorough_checks=20000, enum=True),
     "C14": dict(quick_checks=3000, thorough_checks=20000, race_thorough=True),
